@@ -12,12 +12,15 @@ EXTENDS Integers, Sequences, TLC, TLCExt, Json, IOUtils
 
 CONSTANT Clauses(_)
 
-Recs == ndJsonDeserialize(IOEnv.TRACE_FILE)
+\* The trace is parsed once (in the initial predicate) and kept in a TLC register: a definition
+\*   Recs == ndJsonDeserialize(...)
+\* reached through INSTANCE is re-evaluated at every use, which made validation quadratic in the trace length.
+Recs == TLCGet(7)
 
 VARIABLES l, bad
 tvars == <<l, bad>>
 
-TInit == l = 1 /\ bad = <<>>
+TInit == TLCSet(7, ndJsonDeserialize(IOEnv.TRACE_FILE)) /\ l = 1 /\ bad = <<>>
 
 Step == /\ l <= Len(Recs)
         /\ LET c == Clauses(Recs[l]) IN
